@@ -464,6 +464,8 @@ def src(n, depth=0):
             return json.dumps(v["str"])
         if "char" in v:
             return "'%s'" % v["char"]
+        if "bool" in v:
+            return "true" if v["bool"] else "false"
         return str(list(v.values())[0])
     if k == "field":
         return "%s.%s" % (src(n["e"], depth + 1), n["name"])
@@ -590,3 +592,46 @@ def top_stmts(h):
     if b.get("k") != "block":
         return [b]
     return list(b.get("stmts", [])) + ([b["tail"]] if b.get("tail") is not None else [])
+
+
+# --------------------------------------------------------------------------- guard contexts
+def guards(anc, node):
+    """Conditions under which `node` is evaluated, read off its ancestor chain:
+    ('arm', pattern, guard, scrutinee) | ('if'|'else', cond) | ('adaptor', method, receiver) | ('let', name)"""
+    out = []
+    chain = list(anc) + [node]
+    for i, a in enumerate(chain[:-1]):
+        child = chain[i + 1]
+        k = a.get("k")
+        if k is None and "pat" in a and "body" in a:
+            if child is a["body"]:
+                scrut = ""
+                if i > 0 and chain[i - 1].get("k") == "match":
+                    scrut = src(chain[i - 1]["scrut"])
+                    if chain[i - 1].get("src") in ("for", "try"):
+                        continue
+                out.append(("arm", psrc(a["pat"]), src(a.get("guard")) if a.get("guard") else "", scrut))
+        elif k == "if":
+            if child is a["then"]:
+                out.append(("if", src(a["cond"])))
+            elif child is a.get("else"):
+                out.append(("else", src(a["cond"])))
+        elif k == "mcall" and isinstance(child, dict) and child.get("k") == "closure" and child is not a.get("recv"):
+            out.append(("adaptor", a["name"], src(a["recv"])))
+        elif k == "let" and child is a.get("init"):
+            names = [b["name"] for b, _ in walk(a["pat"]) if b.get("k") == "bind"]
+            out.append(("let", ",".join(names)))
+    return out
+
+
+def gtext(gs, skip_let=True):
+    return " & ".join("%s:%s" % (g[0], "|".join(x for x in g[1:] if x)) for g in gs if not (skip_let and g[0] == "let"))
+
+
+def templates_in(facts, crate, h):
+    """(macro node, ancestors, syn template) for every quote! in a fn."""
+    out = []
+    for n, anc in walk(h["body"]):
+        if n.get("k") == "macro" and n["name"] in ("quote", "quote_spanned"):
+            out.append((n, anc, facts.template_at(n["sp"])))
+    return out
